@@ -73,7 +73,7 @@ func keyScheduleFeatures(p *Prog, fn *ssa.Function, T *types.Named, key *ssa.Par
 						}
 						return true
 					}) {
-						if ci.OnTrue.Dominates(b) && len(ci.OnTrue.Preds) == 1 {
+						if blockDominates(ci.OnTrue, b) && len(ci.OnTrue.Preds) == 1 {
 							bo := ci.Val.(*ssa.BinOp)
 							guard = " if " + describeKeyGuard(bo, key)
 						}
@@ -203,11 +203,9 @@ func runC18(r *Run) {
 					// append(x[:0], make([]byte, blocksize)...) or make([]byte, blocksize)
 					v := s.Val
 					if ap, isAp := v.(*ssa.Call); isAp && isBuiltinCall(ap, "append") && len(ap.Call.Args) == 2 {
-						if sl, isSl := ap.Call.Args[0].(*ssa.Slice); isSl && sl.High != nil {
-							if z, isZ := constInt(sl.High); isZ && z == 0 {
-								if mk, isMk := ap.Call.Args[1].(*ssa.MakeSlice); isMk && isBlockSize(mk.Len) {
-									okf = true
-								}
+						if zeroLenValue(ap.Call.Args[0], 0) {
+							if mk, isMk := ap.Call.Args[1].(*ssa.MakeSlice); isMk && isBlockSize(mk.Len) {
+								okf = true
 							}
 						}
 					}
@@ -362,7 +360,7 @@ func checkMarshaled(r *Run, rc *RuleCtx, T *types.Named, sumFn, resetFn *ssa.Fun
 			rc.Instance(fnName(fn)+"|restore", true, map[string]string{"fn": fnName(fn), "hash": nameOfVar(rs.h), "pad": nameOfVar(rs.pad)})
 			under := false
 			for _, ci := range flagIfs {
-				if ci.OnTrue.Dominates(rs.in.Block()) && len(ci.OnTrue.Preds) == 1 {
+				if blockDominates(ci.OnTrue, rs.in.Block()) && len(ci.OnTrue.Preds) == 1 {
 					under = true
 				}
 			}
@@ -398,7 +396,7 @@ func checkMarshaled(r *Run, rc *RuleCtx, T *types.Named, sumFn, resetFn *ssa.Fun
 					e, ok := v.(*ssa.Extract)
 					return ok && e.Tuple == ssa.Value(ta) && e.Index == 1
 				}) {
-					if ci.OnTrue.Dominates(s.Block()) || blockReachOnlyVia(ci, s.Block()) {
+					if blockDominates(ci.OnTrue, s.Block()) || blockReachOnlyVia(ci, s.Block()) {
 						okAsserts++
 					}
 				}
@@ -426,7 +424,7 @@ func checkMarshaled(r *Run, rc *RuleCtx, T *types.Named, sumFn, resetFn *ssa.Fun
 				if b.Op == token.NEQ {
 					nilEdge = ci.OnFalse
 				}
-				if nilEdge.Dominates(s.Block()) {
+				if blockDominates(nilEdge, s.Block()) {
 					okErrs++
 				}
 			}
@@ -442,7 +440,7 @@ func checkMarshaled(r *Run, rc *RuleCtx, T *types.Named, sumFn, resetFn *ssa.Fun
 				if !ok || a2.Kind != "store" {
 					continue
 				}
-				if e, ok := s2.Val.(*ssa.Extract); ok {
+				if e, ok := canonPhi(s2.Val).(*ssa.Extract); ok {
 					if mc, ok := e.Tuple.(*ssa.Call); ok && mc.Call.IsInvoke() && mc.Call.Method.Name() == "MarshalBinary" {
 						h := hashOf(mc.Call.Value)
 						rc.Instance("Reset|store "+padF.Name(), true, nil)
